@@ -39,7 +39,8 @@ C02_UNITS = [U(V1, f"{VI}.{m}") for m in ["_get_value_next_state", "_calculate_u
              "_calculate_updated_value_state_batch", "_calculate_updated_value_scan_state_batches", "_update_values",
              "_extract_policy_idx_one_state", "_extract_policy_idx_state_batch", "_extract_policy_idx_scan_state_batches", "_extract_policy"]]
 PROPS["C02"] = dict(
-    bounded=[dict(name="c02_runtime", script="harness_solvers.py", args=["--prop", "c02"], wall_s=300)],
+    bounded=[dict(name="c02_runtime", script="harness_solvers.py", args=["--prop", "c02"], wall_s=300),
+             dict(name="interpreter_cross_check", script="xcheck.py", args=["--prop", "C02"], wall_s=200)],
     level="proof", units=C02_UNITS + PROPS["C18"]["units"][2:3],
     lean=["bell_discop", "bellpol_discop", "contraction", "span_contraction", "greedy_eq", "bellpol_le_bell"],
     links={"bell_discop": "monotone + shift-by-gamma*c of the operator that value_iteration.ValueIteration._update_values.post.elementwise proves the sweep to be (hypotheses P>=0, rows sum to 1 = WF-prob, discharged for the shipped problems under C13)",
